@@ -127,11 +127,13 @@ func (bq *Queue[Q]) Run() {
 				bq.relayF(b)
 			}
 			bq.queueLock.Lock()
-			bq.len--
-			l := bq.len
+			// If the slot was reused for a newer element meanwhile, that
+			// element has taken over the count of this one.
 			if bq.queue[pos] == b {
 				bq.queue[pos] = bq.nilQ
+				bq.len--
 			}
+			l := bq.len
 			bq.queueLock.Unlock()
 			if bq.lenUpdateF != nil {
 				bq.lenUpdateF(l)
@@ -180,7 +182,11 @@ func (bq *Queue[Q]) Put(element Q) error {
 	pos := bq.indexToPosition(element.GetIndex())
 	// If we already have it, keep the old element, throw away the new one.
 	if bq.queue[pos] == bq.nilQ || bq.queue[pos].GetIndex() < element.GetIndex() {
-		bq.len++
+		// A stale element being replaced is counted already, len is the
+		// number of occupied slots.
+		if bq.queue[pos] == bq.nilQ {
+			bq.len++
+		}
 		bq.queue[pos] = element
 		for pos < bq.cacheSize && bq.queue[pos] != bq.nilQ && bq.lastQ+1 == bq.queue[pos].GetIndex() {
 			bq.lastQ = bq.queue[pos].GetIndex()
